@@ -1841,6 +1841,14 @@ class unyt_array(np.ndarray):
             # Unary ufuncs
             inp = inputs[0]
             u = getattr(inp, "units", None)
+            initial = kwargs.get("initial")
+            if (
+                isinstance(initial, unyt_array)
+                and self._ufunc_registry[ufunc] is _preserve_units
+            ):
+                # the start value of a reduction is combined with the
+                # elements, so it must be expressed in their units
+                kwargs["initial"] = initial.to_value(u)
             if u.dimensions is angle and ufunc in trigonometric_operators:
                 # ensure np.sin(90*degrees) works as expected
                 inp = inp.in_units("radian").v
